@@ -152,6 +152,29 @@ CHECKS = {
         "tabulated position of every Hall setting + a general-position species, re-described cells, supercells."),
   design_ref="DESIGN.md §3 C07", note=PIPE_NOTE + " Completeness of the subspace clause (no false alarm) is argued, not proved; moyo's SNF-based assign_wyckoff_position is not modelled.",
   technique="Lean 4 verified oracle (stabilizers in std_cell) + kernel-decided Wyckoff table theorems + parser/orbit-labelling correspondence"),
+
+ "C16": dict(
+  category="proof",
+  text=("Kernel-decided theorems over the regenerated tables, for all 530 Hall rows, 73 arithmetic classes, 230 numbers, 3467 Wyckoff rows (Props/C16.lean, Props/C16Wyckoff.lean, chunked in Moyo/Tables): every Hall "
+        "string parses and its traversal is closed modulo the centring lattice; order and rotation-type histogram equal those of the entry's geometric class; lattice letter = centering field; a kernel-checked unimodular "
+        "conjugator onto the representative of the arithmetic class, and the 73 representatives are pairwise non-conjugate in GL3(Z) (invariant-vector certificate with a once-proved lemma); settings sharing an ITA number are "
+        "conjugate by a kernel-checked proper affine map; Spglib = smallest / Standard = ITA setting; Wyckoff: parse, generic orbit size = multiplicity, #ops/multiplicity = order of the named point group, letters contiguous, "
+        "equal-multiplicity letters disjoint. Certificates are recomputed from the tables on every run. The Lean parser model is tied to the Rust parser by exhaustive correspondence on all table strings."),
+  design_ref="DESIGN.md §3 C16",
+  note=("Trusted: Lean kernel (decide +kernel, GMP-accelerated Nat), the tokenising translator (validated against the running code's rows), the certificate search (untrusted: certificates are checked in the kernel). "
+        "Partial: inequivalence of different types inside one arithmetic class is not proved (types_inequivalent_across_classes_partial)."),
+  technique="Lean 4 kernel-decided table theorems over regenerated tables with recomputed certificates + exhaustive parser correspondence",
+  engine="lean-proofs+translator+correspondence"),
+ "C17": dict(
+  category="proof",
+  text=("Kernel-decided theorems over the regenerated magnetic tables for all 1651 entries and 230 ranges (Props/C17.lean): every magnetic Hall string parses and is closed; the construct type recomputed from the generated "
+        "group equals the table; the family group / unprimed subgroup is the Standard setting of the entry's number under a kernel-checked proper affine map; UNI numbering, BNS prefix, exactly 230 contiguous ranges with the "
+        "right number; entries of a range are pairwise different (partial form). Parser model tied to the Rust parser by exhaustive correspondence on all 1651 strings; uni_number_range compared with the running code."),
+  design_ref="DESIGN.md §3 C17",
+  note=("Trusted as C16. Partial: 'identified as itself and no other' is proved only as pairwise difference of the tabulated primitive operation sets inside a range, not as inequivalence under the origin shifts / normalizer "
+        "elements the identification tries (mag_range_distinct_partial); the pipeline-level statement is C12."),
+  technique="Lean 4 kernel-decided table theorems over regenerated magnetic tables + exhaustive parser correspondence",
+  engine="lean-proofs+translator+correspondence"),
 }
 
 NA_REASON = "check not built yet (work in progress; will be claimed)"
